@@ -70,6 +70,13 @@ class FieldInvariants:
         const_vals = []
         for fname, bb, line, rv, kind in stores:
             if kind in ('addr_taken', 'through'):
+                if kind == 'addr_taken' and self._ref_only_returned(fname):
+                    # a private accessor handing `&mut field` to its callers (`fn cell(&mut self, ..) -> (&mut u8, u8)`):
+                    # the stores happen in the callers, where the interpreter follows the reference to the field
+                    for c in self.prog.callers(fname):
+                        dyn_fns.add(c[0])
+                        sites.append('%s:%d calls %s (which returns a reference to the field)' % (c[0], c[2], fname))
+                    continue
                 if kind == 'addr_taken':
                     self.cache[key] = top
                     self.why[key] = ['address of the field is taken in %s:%d' % (fname, line)]
@@ -148,6 +155,21 @@ class FieldInvariants:
         self.cache[key] = cur
         self.why[key] = sites
         return cur
+
+    def _ref_only_returned(self, fname):
+        """fname is private, returns a `&mut`, is called (only from this crate, being private) and none of its callers
+        hands a mutable reference or raw pointer on in its own result"""
+        fn = self.facts['functions'].get(fname)
+        if not fn or fn.get('vis') in ('Public', 'closure') or '&mut' not in fn['locals'][0]['ty']:
+            return False
+        cs = [c for c in self.prog.callers(fname) if c[0] != fname]
+        if not cs:
+            return False
+        for c in cs:
+            cf = self.facts['functions'].get(c[0])
+            if not cf or '&mut' in cf['locals'][0]['ty'] or '*mut' in cf['locals'][0]['ty']:
+                return False
+        return True
 
     def _operand_is_param(self, fname, rv):
         if rv is None or rv['k'] != 'use':
@@ -251,6 +273,9 @@ class FieldInvariants:
                 out.append(AV(bits))
                 continue
             for e in r.state.events:
+                if e[0] == 'extcall' and any(a is not None and a[0] == 'ref' and a[2] and a[2][-1][0] == 'f' and
+                                             a[2][-1][1] == field and a[2][-1][2] == owner for a in e[2]):
+                    out.append(AV(bits))        # a reference to the field is handed to code that is not followed
                 if e[0] == 'store' and e[2] and e[2][-1][0] == 'f' and e[2][-1][1] == field and e[2][-1][2] == owner:
                     v = e[3]
                     if v is not None and T.is_int(v):
